@@ -57,7 +57,7 @@ def oracle_case(c, stats):
 
 
 def main(ctx):
-    proofs_ok = check_proofs(ctx)
+    proofs_ok = check_proofs(ctx, extra_props=("C15glue",))
     h = build_harness(ctx)
     d = build_driver(ctx)
     if not h or not d:
